@@ -65,7 +65,7 @@ def strat_inputs(draw):
     if draw(st.integers(0, 7)) == 0:
         case["spec"]["drop_invalid_rows"] = True
         case["lazy"] = True
-    if draw(st.integers(0, 19)) == 0 and case.get("entry") != "column":
+    if draw(st.integers(0, 19)) == 0 and case.get("entry") != "column" and case["spec"].get("kind") != "column":
         case["argument"] = draw(st.sampled_from(["list", "series-for-frame", "frame-for-series", "dict", "int", "str"]))
     return case
 
@@ -196,7 +196,7 @@ def _kf_mismatch(family, case, disc):
 
 
 FAMILIES = [
-    Family("inputs", evaluate_inputs, strategy=strat_inputs, n_quick=600, n_thorough=5000, shards_quick=4, shards_thorough=16,
+    Family("inputs", evaluate_inputs, strategy=strat_inputs, n_quick=1200, n_thorough=5000, shards_quick=4, shards_thorough=16,
            required_labels=["drop_invalid_rows", "subsample", "outcome=SchemaErrors", "outcome=usage", "op=coerce-bad"]),
 ]
 
@@ -205,7 +205,7 @@ from . import plx  # noqa: E402
 FAMILIES.append(
     Family("polars_inputs", plx.eval_c06,
            strategy=lambda: plx.strat_case(parsers="many", containers=("df", "df", "lf_full", "lf"), drop_rate=2, subsample_rate=2, regex_rate=1),
-           n_quick=300, n_thorough=3000, shards_quick=3, shards_thorough=12,
+           n_quick=600, n_thorough=3000, shards_quick=3, shards_thorough=12,
            required_labels=["container=lf", "container=lf_full", "drop_invalid_rows", "subsample", "outcome=SchemaErrors"]))
 
 try:
